@@ -108,7 +108,7 @@ fn span_pairs(bs: &[usize]) -> Vec<(usize, usize)> {
             v.push((bs[i], bs[i + 3]));
         }
     }
-    let mut x = n as u64 * 0x9E3779B97F4A7C15;
+    let mut x = (n as u64).wrapping_mul(0x9E3779B97F4A7C15);
     for _ in 0..400 {
         let a = (crate::rng::splitmix(&mut x) % n as u64) as usize;
         let b = (crate::rng::splitmix(&mut x) % n as u64) as usize;
@@ -260,6 +260,18 @@ pub fn execute(sc: &NScenario, full_sweep_every_feed: bool) -> NReport {
                     Ok(lc) => add(&mut rep, "lexer-line-col", format!("line_col({s}..{e}) = {:?}, expected {:?}; text {:?}", lc, exp_lc, p), None),
                     Err(_) => add(&mut rep, "lexer-line-col-panic", format!("line_col({s}..{e}) panicked; text {:?}", p), None),
                 }
+                // a lexing error whose span is not empty (a hand-written lexer may report the
+                // whole offending text) is located at its first byte
+                if e > s {
+                    rep.queries += 1;
+                    let err: LexParseError<u32, DefaultLexerTypes<u32>> = LexParseError::LexError(LRLexError::new(sp));
+                    let exp = format!("Lexing error at line {} column {}.", ref_line(p, s), ref_col(p, s));
+                    match catch_unwind(AssertUnwindSafe(|| err.pp(&lexer, &|_| None))) {
+                        Ok(m) if m == exp => {}
+                        Ok(m) => add(&mut rep, "pp-position", format!("pp for an error spanning bytes {s}..{e}: {:?}, expected {:?}; text {:?}", m, exp, p), None),
+                        Err(_) => add(&mut rep, "pp-panic", format!("pp for an error spanning bytes {s}..{e} panicked; text {:?}", p), None),
+                    }
+                }
                 let (a, b) = ref_span_lines(p, s, e);
                 match catch_unwind(AssertUnwindSafe(|| lexer.span_lines_str(sp))) {
                     Ok(st) if st == &p[a..b] => {}
@@ -281,6 +293,26 @@ pub fn execute(sc: &NScenario, full_sweep_every_feed: bool) -> NReport {
     // consumes the input (including the paths that stop at a lexing error).
     real_lexer_checks(&mut rep, p);
     underline_checks(&mut rep, p);
+    {
+        // multi-span diagnostics on this text; every eighth text also seeds the layout of an
+        // ambiguous grammar whose conflict report is re-rendered
+        let bs = boundaries(p);
+        let mut fs = vec![];
+        let mut hits: Vec<&'static str> = vec![];
+        let mut q = 0u64;
+        crate::diag_n::multi_span_checks(p, &bs, &mut fs, &mut |k| hits.push(k), &mut q);
+        let h = fnv(p.as_bytes());
+        if h % 8 == 0 {
+            crate::diag_n::conflict_checks(h, &mut fs, &mut |k| hits.push(k), &mut q);
+        }
+        rep.queries += q;
+        for k in hits {
+            *rep.probes.entry(k).or_insert(0) += 1;
+        }
+        for f in fs {
+            push_finding(&mut rep, f.class, f.detail, None);
+        }
+    }
     rep.log_hash = lh;
     rep
 }
@@ -662,7 +694,7 @@ pub fn replay_main(v: &Value, path: &str, quiet: bool) -> i32 {
             return EXIT_HARNESS;
         }
     };
-    std::panic::set_hook(Box::new(|_| {}));
+    crate::common::quiet_panics();
     let class = v["class"].as_str().unwrap_or("");
     let rep = execute(&sc, true);
     let mut hit = false;
@@ -697,7 +729,7 @@ pub fn check_main(tier: &str) -> i32 {
     let count: u64 = std::env::var("VERIF_N_COUNT").ok().and_then(|s| s.parse().ok()).unwrap_or(if tier == "thorough" { 12_000_000 } else { 400_000 });
     let max_bytes = if tier == "thorough" { 40 } else { 28 };
     let w = ncpu() as u64;
-    std::panic::set_hook(Box::new(|_| {}));
+    crate::common::quiet_panics();
     println!("engine N: property=C19 tier={tier} VERIF_SEED={seed} histories={count} threads={w}");
     struct Tot {
         queries: u64,
@@ -829,7 +861,7 @@ pub fn check_main(tier: &str) -> i32 {
     extra.insert("runs_per_hour".into(), json!((count as f64 / wall * 3600.0) as u64));
     extra.insert("fragmentation_faults_fired".into(), json!(t.probes));
     extra.insert("event_log_hash".into(), json!(format!("{:016x}", t.loghash)));
-    extra.insert("real_components".into(), json!(["cfgrammar::newlinecache::NewlineCache (feed, byte_to_line_num, byte_to_line_byte, byte_to_line_num_and_col_num, span_line_bytes)", "lrlex::LRNonStreamingLexer::{line_col, span_lines_str}", "lrpar::LexParseError::pp"]));
+    extra.insert("real_components".into(), json!(["cfgrammar::newlinecache::NewlineCache (feed, byte_to_line_num, byte_to_line_byte, byte_to_line_num_and_col_num, span_line_bytes)", "lrlex::LRNonStreamingLexer::{line_col, span_lines_str}", "lrpar::LexParseError::pp (lexing errors with empty and non-empty spans, parse errors with repair lists)", "lrlex::LRNonStreamingLexerDef::lexer (its own cache feeding)", "lrpar::diagnostics::SpannedDiagnosticFormatter::{file_location_msg, underline_span_with_text, format_warning (multi-span), format_conflicts}"]));
     extra.insert("stub_components".into(), json!(["none; there is no clock, thread or I/O in this path -- the simulated dimension is the fragmentation schedule and queries issued before end of stream"]));
     extra.insert("distinct_states".into(), json!({"count": t.digests.len(), "measure": "distinct chunk sequences with >= 2 chunks"}));
     let ev = Evidence {
@@ -838,7 +870,7 @@ pub fn check_main(tier: &str) -> i32 {
         seed,
         evaluations: count,
         distinct_nontrivial: t.digests.len() as u64,
-        rule: format!("history i of stream VERIF_SEED: text of <= {max_bytes} bytes over {{a b space LF CR CRLF 2/3/4-byte chars}} cut at PRNG-chosen character boundaries (empty chunks, CR|LF cuts, cut after newline); after every feed all character-boundary offsets are queried, all spans after the last feed (and after every feed for one history in four). Non-trivial = at least two chunks; distinct = distinct chunk sequence."),
+        rule: format!("history i of stream VERIF_SEED: text of <= {max_bytes} bytes over {{a b space LF CR CRLF 2/3/4-byte chars}} cut at PRNG-chosen character boundaries (empty chunks, CR|LF cuts, cut after newline); after every feed all character-boundary offsets are queried, all spans after the last feed (and after every feed for one history in four); on the final text: the real lexer's own cache, pretty-printed lexing and parse errors, single-span underlines, six multi-span (2-4 spans) warnings, and for one text in eight the conflict report of one of six ambiguous grammars laid out over several lines from the text's hash. Non-trivial = at least two chunks; distinct = distinct chunk sequence."),
         samples: t.samples.clone(),
         extra,
         assumptions: vec!["offsets and spans on character boundaries only (as the property states)".into(), "newline = LF; a lone CR is an ordinary character".into()],
